@@ -10,6 +10,7 @@ Definition gen_capture_default_check : bool := true.
 Definition gen_capture : hstmt := (SSeq SReadInfo (SSeq (SIf (CAnd (CFlag FCheck) (CAnd (CTypeNone TLoc) (CValNone VLoc))) SRaiseRuntime SSkip) (SSeq SStore SReturnSelf))).
 Definition gen_enter_check : bool := false.
 Definition gen_exit : hstmt := (SSeq (SIf (CNot (CTypeNone TArg)) (SSeq (SIf (CFlag FReraise) SLog SSkip) SReturnFalse) SSkip) (SIf (CFlag FReraise) SForce SSkip)).
+Definition gen_filt_init_order : init_order := AssignThenWrap.
 Definition gen_get_rebinds : bool := true.
 Definition gen_filt_exit : hstmt := (SIf (CNot (CValNone VArg)) (SReturnPred VArg) SSkip).
 Definition gen_filt_call : hstmt := (SSeq SReadInfo (STryFinally (SIf (CNot (CPred VArg)) (SIf (CSame VLoc VArg) (STryFinally (SSeq (SIf (CValNone VLoc) (SNewFromType VLoc TLoc) SSkip) (SSeq (SIf (CTbDiffers VLoc BLoc) (SRaiseWithTb VLoc BLoc) SSkip) (SRaise VLoc))) (SSeq (SClearV VLoc) (SClearB BLoc))) (SRaise VArg)) SSkip) SSkip)).
